@@ -12,7 +12,11 @@ helper OUT, which records them and returns
     mode "list"   : the same as a nested Python list (DomainUserFunction must tensor-ify it).
 Values are *tokens* {"k": kind, "u": uid, ...} in the spec and distinguishable objects at run
 time: tensors with unique contents, identity-tracked sentinels (uid + mutable payload), user
-lists, floats.
+lists, floats - and the *falsy* values None / 0.0 / False / [] (token kinds none, zero, false,
+empty), which a user legitimately declares as defaults ("t=None": optional time) and which must
+be treated as any other stored value: whether a name has a default is a question of the name,
+never of the value.  In the tensor modes OUT skips received None values (the `if t is None`
+pattern), so None defaults / bindings occur there too.
 """
 import copy
 import inspect
@@ -36,12 +40,22 @@ RULE = ("Hypothesis draws a signature: 0-6 positional-or-keyword parameters (dis
         "vectorize=True in a share), partially_evaluate(subset or superset), set_default, "
         "remove_default (positional and keyword form), copy.deepcopy, re-wrap "
         "UserFunction(uf)/DomainUserFunction(uf). Values are unique tensors, uid-tracked "
-        "sentinels with a mutable payload, user lists and floats. In 2/3 of the cases three "
+        "sentinels with a mutable payload, user lists and floats, and - as declared defaults, "
+        "set_default / partially_evaluate values and (pairs mode) call values - the falsy "
+        "values None, 0.0, False and [] (in ~2/7 of the non-tensor draws; in the tensor/list "
+        "modes None in ~1/5 of the default/set/bind draws, the generated function leaves a "
+        "received None out of its torch.cat). In 2/3 of the cases three "
         "unrelated 'bystander' wrappers (a constant, a function without and one with a default) "
         "are created before or after the wrapper under test. 84 pinned cases (3 flavours x all 28 "
         "(n, number of defaults) pairs) call with all defaults omitted / everything given in "
         "reverse order plus an unknown name / the first or last required name missing / after a "
-        "partial evaluation of every second parameter. Oracles: observed names == "
+        "partial evaluation of every second parameter. 39 further pinned cases for the falsy values "
+        "(None for all four flavours; 0.0, False, [] for the pairs flavour): the value declared "
+        "as default (last / middle / all optional parameters), installed by set_default and "
+        "removed again, bound by partially_evaluate - each followed by calls that omit / "
+        "override the name, partial evaluations that must return the value resp. a wrapper, "
+        "deepcopy and re-wrap; 2 pinned vectorised histories whose batch length comes from "
+        "a default / optional name while the required names hold constant tensors. Oracles: observed names == "
         "declared parameters, each value is the object stored under that name (identity for "
         "dict calls, equality for Points columns and defaults), defaults for absent optional "
         "names, missing required name raises, return value passed through (DomainUserFunction: "
@@ -72,6 +86,14 @@ ASSUMPTIONS = [
     "partially_evaluate of a DomainUserFunction with all required names bound returns the user's raw "
     "function value (the statement says 'the function value'), not the tensor-ified call result",
     "identity of default objects is tracked by uid + content, not by `is` (copying defaults is allowed)",
+    "None / 0.0 / False / [] are ordinary values: a parameter declared `t=None`, given a None default by "
+    "set_default(t=None) or bound by partially_evaluate(t=None) is optional and receives that value "
+    "('declared defaults for absent optional ones'); falsy values are not distinguishable from each "
+    "other by uid, only by type and content (and [] by identity in dict calls)",
+    "falsy values other than None only in mode 'pairs' (the tensor modes concatenate what they receive); "
+    "DomainUserFunction / Points / vectorised calls still get tensor values only, None reaches a "
+    "DomainUserFunction only as a default or a partially_evaluate / set_default value; constant "
+    "'functions' are not falsy values",
 ]
 BUDGET = {"quick": {"examples": 1200, "workers": 4},
           "thorough": {"examples": 12000, "workers": 14}}
@@ -108,9 +130,19 @@ class _Uid:
         return self.n
 
 
-def _token(draw, uid, mode, tensor_only=False, const_rows=False):
-    if mode != "pairs" or tensor_only:
+FALSY = ["none", "zero", "false", "empty"]
+
+
+def _token(draw, uid, mode, tensor_only=False, const_rows=False, falsy=False):
+    """falsy: the position may hold None / 0.0 / False / [] (defaults, bindings, pairs calls)."""
+    if tensor_only:
         k = "tensor"
+    elif mode != "pairs":
+        k = "none" if (falsy and draw(st.integers(0, 4)) == 0) else "tensor"
+    elif falsy:
+        k = draw(st.sampled_from(["tensor", "sent", "sent", "list", "num", "none", "falsy"]))
+        if k == "falsy":
+            k = draw(st.sampled_from(FALSY))
     else:
         k = draw(st.sampled_from(["tensor", "sent", "sent", "list", "num"]))
     tok = {"k": k, "u": uid()}
@@ -139,7 +171,7 @@ def _case(draw, tier):
         params = list(draw(st.permutations(NAMES)))[:n]
         ndef = draw(st.integers(0, n))
         spec["src"] = make_source(kind, params, ndef)
-        spec["defaults"] = [_token(draw, uid, mode) for _ in range(ndef)]
+        spec["defaults"] = [_token(draw, uid, mode, falsy=True) for _ in range(ndef)]
     spec["params"] = params
     spec["ndef"] = ndef
 
@@ -182,7 +214,8 @@ def _case(draw, tier):
                    and len(params) >= 1 and draw(st.integers(0, 3)) == 0)
             tensor_only = form == "points" or vec
             vals = [_token(draw, uid, mode, tensor_only=tensor_only,
-                           const_rows=vec and form != "points") for _ in given]
+                           const_rows=vec and form != "points",
+                           falsy=(mode == "pairs" and form == "dict")) for _ in given]
             ops.append({"op": "call", "w": w, "names": given, "vals": vals, "form": form,
                         "vec": bool(vec)})
         elif op == "partial":
@@ -195,7 +228,7 @@ def _case(draw, tier):
             # bias towards "not yet complete" so that chains of wrappers occur
             if req and set(req) <= set(given) and draw(st.integers(0, 2)) > 0:
                 given.remove(draw(st.sampled_from(req)))
-            vals = [_token(draw, uid, mode) for _ in given]
+            vals = [_token(draw, uid, mode, falsy=True) for _ in given]
             ops.append({"op": "partial", "w": w, "names": given, "vals": vals})
             if kind != "const" and not set(req) <= set(given):
                 pool.append({"defs": m["defs"] | (set(given) & set(params)), "alias": False,
@@ -206,7 +239,7 @@ def _case(draw, tier):
                 pool.append({"defs": set(m["defs"]), "alias": False, "cls": m["cls"]})
                 continue
             given = draw(st.lists(st.sampled_from(params), unique=True, min_size=1, max_size=3))
-            vals = [_token(draw, uid, mode) for _ in given]
+            vals = [_token(draw, uid, mode, falsy=True) for _ in given]
             ops.append({"op": "setdef", "w": w, "names": given, "vals": vals})
             m["defs"] |= set(given)
         elif op == "rmdef":
@@ -267,6 +300,119 @@ def extra_cases(tier, seed):
                        "ndef": ndef, "src": make_source("def", params, ndef),
                        "defaults": [tok() for _ in range(ndef)], "ops": ops, "by": "before",
                        "rng": 0}
+    yield from _falsy_pinned()
+    yield from _vec_pinned()
+
+
+def _vec_pinned():
+    """vectorize=True where the batch length is carried by a default / an optional name only and
+    the required names hold shorter 'constant' tensors (apply_to_batch: batch = maximum over ALL
+    bound inputs)."""
+    for B in (2, 3):
+        uid = _Uid()
+
+        def T(r, uid=uid):
+            return {"k": "tensor", "u": uid(), "d": 1, "r": r}
+
+        def vcall(w, names, vals):
+            return {"op": "call", "w": w, "names": names, "vals": vals, "form": "dict", "vec": True}
+
+        params = ["x", "t", "a"]
+        ops = [vcall(0, ["x", "t"], [T(1), T(1)]),                 # batch from the default of a
+               vcall(0, ["x", "t", "a"], [T(1), T(1), T("B")]),    # batch from an optional name
+               vcall(0, ["t", "x"], [T("B"), T(1)]),
+               {"op": "setdef", "w": 0, "names": ["x", "t"], "vals": [T(1), T("B")]},
+               vcall(0, [], []),                                   # everything from defaults
+               {"op": "partial", "w": 0, "names": ["x"], "vals": [T(1)]}]
+        yield {"mode": "tensor", "cls": "user", "kind": "def", "B": B, "params": params,
+               "ndef": 1, "src": make_source("def", params, 1), "defaults": [T("B")],
+               "ops": ops, "by": "none", "rng": 0}
+
+
+def _falsy_pinned():
+    """None / 0.0 / False / [] as declared default, as set_default value and as value bound by
+    partially_evaluate: the name is optional whatever the value stored for it."""
+    def call(w, names, vals):
+        return {"op": "call", "w": w, "names": list(names), "vals": list(vals), "form": "dict",
+                "vec": False}
+
+    flavours = [("pairs", "user", FALSY), ("tensor", "user", ["none"]),
+                ("tensor", "domain", ["none"]), ("list", "domain", ["none"])]
+    for mode, cls, kinds in flavours:
+        for fk in kinds:
+            def mk(uid, mode=mode):
+                def tok():
+                    if mode == "pairs":
+                        return {"k": "sent", "u": uid()}
+                    return {"k": "tensor", "u": uid(), "d": 1, "r": "B"}
+                return tok
+
+            def case(params, ndef, defaults, ops, mode=mode, cls=cls):
+                return {"mode": mode, "cls": cls, "kind": "def", "B": 2, "params": params,
+                        "ndef": ndef, "src": make_source("def", params, ndef),
+                        "defaults": defaults, "ops": ops, "by": "after", "rng": 0}
+
+            # (a) declared: f(x, a=.., t=..) with the falsy value last / first / in both places
+            for where in ("last", "first", "both"):
+                uid = _Uid()
+                tok = mk(uid)
+                F = lambda uid=uid, fk=fk: {"k": fk, "u": uid()}        # noqa: E731
+                params = ["x", "a", "t"]
+                defaults = {"last": [tok(), F()], "first": [F(), tok()], "both": [F(), F()]}[where]
+                ops = [call(0, ["u", "x"], [tok(), tok()]),              # both defaults taken
+                       {"op": "partial", "w": 0, "names": ["x"], "vals": [tok()]},     # -> value
+                       call(0, ["t", "x"], [tok(), tok()]),              # falsy default overridden?
+                       call(0, ["a"], [tok()]),                          # x missing -> rejected
+                       {"op": "partial", "w": 0, "names": ["a"], "vals": [tok()]},     # -> wrapper 1
+                       call(1, ["x"], [tok()]),
+                       {"op": "deepcopy", "w": 0},                                     # wrapper 2
+                       call(2, ["x", "a"], [tok(), tok()]),
+                       {"op": "rewrap", "w": 2, "cls": cls},                           # wrapper 3
+                       call(3, ["x"], [tok()]),
+                       {"op": "partial", "w": 3, "names": ["x", "t"], "vals": [tok(), tok()]}]
+                yield case(params, 2, defaults, ops)
+            # (b) set_default(t=falsy) on a required name, later removed again
+            uid = _Uid()
+            tok = mk(uid)
+            params = ["t", "x", "b"]
+            ops = [{"op": "setdef", "w": 0, "names": ["t"], "vals": [{"k": fk, "u": uid()}]},
+                   call(0, ["x"], [tok()]),
+                   {"op": "partial", "w": 0, "names": ["x"], "vals": [tok()]},         # -> value
+                   {"op": "partial", "w": 0, "names": ["b"], "vals": [tok()]},         # -> wrapper 1
+                   call(1, ["x"], [tok()]),
+                   call(1, ["x", "t"], [tok(), tok()]),
+                   {"op": "rmdef", "w": 0, "names": ["t"], "style": "pos"},
+                   call(0, ["x"], [tok()]),                              # t missing -> rejected
+                   call(1, ["x"], [tok()]),                              # the copy keeps its default
+                   {"op": "setdef", "w": 0, "names": ["x", "t"],
+                    "vals": [{"k": fk, "u": uid()}, {"k": fk, "u": uid()}]},
+                   {"op": "call", "w": 0, "names": [], "vals": [], "form": "none", "vec": False}]
+            yield case(params, 1, [tok()], ops)
+            # (c) partially_evaluate(t=falsy) with other names unbound: chain of wrappers
+            uid = _Uid()
+            tok = mk(uid)
+            params = ["y", "t", "x"]
+            ops = [{"op": "partial", "w": 0, "names": ["t"], "vals": [{"k": fk, "u": uid()}]},  # 1
+                   {"op": "partial", "w": 1, "names": ["y"], "vals": [tok()]},                  # 2
+                   call(2, ["x"], [tok()]),
+                   {"op": "partial", "w": 2, "names": ["x"], "vals": [tok()]},         # -> value
+                   call(1, ["x"], [tok()]),                              # y missing -> rejected
+                   call(1, ["x", "y"], [tok(), tok()]),
+                   call(0, ["x", "y"], [tok(), tok()]),                  # original still needs t
+                   {"op": "deepcopy", "w": 1},                                                  # 3
+                   call(3, ["y", "x", "t"], [tok(), tok(), tok()]),
+                   {"op": "partial", "w": 3, "names": ["x", "y"], "vals": [tok(), tok()]}]
+            yield case(params, 0, [], ops)
+            # (d) pairs only: the falsy value handed over in the call mapping itself
+            if mode == "pairs":
+                uid = _Uid()
+                tok = mk(uid)
+                params = ["x", "t", "a"]
+                ops = [call(0, ["t", "x"], [tok(), {"k": fk, "u": uid()}]),
+                       call(0, ["a", "x", "t"], [{"k": fk, "u": uid()}, tok(), {"k": fk, "u": uid()}]),
+                       {"op": "partial", "w": 0, "names": ["x"], "vals": [{"k": fk, "u": uid()}]},
+                       call(1, ["t"], [tok()])]
+                yield case(params, 1, [tok()], ops)
 
 
 # ======================================================================================
@@ -303,6 +449,14 @@ class _Objects:
             elif k == "list":
                 o = [[float(u), float(u) + 0.25]]
                 s = copy.deepcopy(o)
+            elif k == "none":
+                o = s = None
+            elif k == "zero":
+                o = s = 0.0
+            elif k == "false":
+                o = s = False
+            elif k == "empty":
+                o, s = [], []
             elif k == "tensor":
                 rows = self.B if tok.get("r", "B") == "B" else int(tok["r"])
                 d = int(tok.get("d", 1))
@@ -353,8 +507,13 @@ def _content_mismatch(o, snap, k):
     if k in ("num", "int"):
         ok = type(o) is type(snap) and o == snap
         return None if ok else f"got {_short(o)}, expected {snap!r}"
-    if k == "list":
+    if k in ("list", "empty"):
         ok = type(o) is list and o == snap
+        return None if ok else f"got {_short(o)}, expected {snap!r}"
+    if k == "none":
+        return None if o is None else f"got {_short(o)}, expected None"
+    if k in ("zero", "false"):
+        ok = type(o) is type(snap) and o == snap
         return None if ok else f"got {_short(o)}, expected {snap!r}"
     raise HarnessError(f"unknown token kind {k}")
 
@@ -415,8 +574,9 @@ class _Run:
             r = pairs
         else:
             try:
-                if pairs:
-                    r = torch.cat([v for _, v in pairs], dim=-1)
+                got = [v for _, v in pairs if v is not None]    # `if t is None` pattern
+                if got:
+                    r = torch.cat(got, dim=-1)
                 else:
                     r = torch.full((self.B, 1), -1.0)
                 if self.mode == "list":
@@ -589,10 +749,11 @@ class _Run:
                                f"{[(n, _short(v)) for n, v in pairs]}")
 
     def expected_raw(self, exp):
-        if not exp:
+        got = [self.objs.snap[tok["u"]] for _, tok, _ in exp if tok["k"] != "none"]
+        if not got:
             t = torch.full((self.B, 1), -1.0)
         else:
-            t = torch.cat([self.objs.snap[tok["u"]] for _, tok, _ in exp], dim=-1)
+            t = torch.cat(got, dim=-1)
         return t
 
     def check_result(self, res, w, exp, where, raw=False):
@@ -705,6 +866,11 @@ class _Run:
                 omitted = [p for p, _, src in exp if src == "default"]
                 if omitted:
                     self.classes.add("call-omits-default")
+                    if any(tok["k"] in FALSY for _, tok, src in exp if src == "default"):
+                        self.classes.add("call-omits-falsy-default")
+                if any(tok["k"] in FALSY for _, tok, src in exp if src == "given"):
+                    self.classes.add("call-gives-falsy")
+                if omitted:
                     if len(self.params) >= 3:
                         self.stats["omit_default_calls"] += 1
                 if any(nm not in self.params for nm in names):
@@ -752,6 +918,8 @@ class _Run:
         if not missing:
             self.stats["partial_values"] += 1
             self.classes.add("partial-value")
+            if any(tok["k"] in FALSY for _, tok, src in exp if src == "default"):
+                self.classes.add("partial-value-with-falsy-default")
             if len(self.rec) - n0 != 1:
                 self.violation("partial-kind", f"{where}-all-bound-not-evaluated",
                                f"all required names bound by {names} but {len(self.rec) - n0} "
@@ -779,6 +947,8 @@ class _Run:
                 self.stats["partial_wrappers"] += 1
                 self.stats["max_depth"] = max(self.stats["max_depth"], child.depth)
                 self.classes.add("partial-wrapper")
+                if any(t["k"] in FALSY for nm, t in given.items() if nm in self.params):
+                    self.classes.add("partial-binds-falsy")
         self.check_all("partial", target=i)
 
     def op_setdef(self, op, i, w):
@@ -794,6 +964,8 @@ class _Run:
         for nm, t in pairs:
             w.defaults[nm] = t
         self.classes.add("setdef" + ("-on-copy" if w.origin != "root" else ""))
+        if any(t["k"] in FALSY for _, t in pairs):
+            self.classes.add("setdef-falsy")
         self.check_all("setdef", target=i, mutated=True)
         w.take_shadow()
 
@@ -962,6 +1134,8 @@ def run_case(spec, ctx):
     classes = sorted(run.classes) + [
         f"params-{n}", "ndef-" + ("0" if ndef == 0 else "all" if ndef == n else "some"),
         f"{spec['cls']}-{spec['mode']}", f"kind-{spec['kind']}",
+        "declared-falsy-default-" + ("yes" if any(t["k"] in FALSY for t in spec.get("defaults", []))
+                                     else "no"),
         "pool-" + ("1" if len(run.pool) <= 1 else "2-3" if len(run.pool) <= 3 else "4+"),
     ]
     if s["max_depth"] >= 2:
